@@ -567,11 +567,14 @@ def run_compare_none_scalar(chk, spec):
 	import operator, warnings
 	a = list(spec["a"])
 	v = Vector(list(a))
-	op = {"eq": operator.eq, "ne": operator.ne}[spec["opname"]]
+	op = {"eq": operator.eq, "ne": operator.ne, "lt": operator.lt, "ge": operator.ge}[spec["opname"]]
+	# (the scalar is None or a value of ANOTHER family - a number next to a text column, a text next to numbers: whatever is answered - or refused -
+	# for the other positions, a None element compares False)
+	k = spec.get("scalar")
 	with warnings.catch_warnings():
 		warnings.simplefilter("ignore")
-		o = call(lambda: op(v, None) if spec["form"] == "vs" else op(None, v))
-	chk.judged("compare-none", ("compare-none-scalar", spec["opname"], spec["form"], spec["kind"], spec["mask"]))
+		o = call(lambda: op(v, k) if spec["form"] == "vs" else op(k, v))
+	chk.judged("compare-none", ("compare-none-scalar", spec["opname"], spec["form"], spec["kind"], spec["mask"], type(k).__name__))
 	if not o.ok or not isinstance(o.value, Vector):
 		return
 	got = list(o.value._underlying)
@@ -580,7 +583,7 @@ def run_compare_none_scalar(chk, spec):
 		return
 	bad = [i for i, x in enumerate(a) if x is None and got[i] is not False]
 	if bad:
-		chk.fail("a None element makes every comparison at its position False", f"compare/none-scalar/true-at-none/{spec['opname']}/{spec['form']}", f"Vector({a!r}) {spec['opname']} None -> {got!r}: position {bad[0]} holds None")
+		chk.fail("a None element makes every comparison at its position False", f"compare/none-scalar/true-at-none/{spec['opname']}/{spec['form']}", f"Vector({a!r}) {spec['opname']} {k!r} -> {got!r}: position {bad[0]} holds None")
 
 def run_group_same_name(chk, spec):
 	"""two operands of one aggregate / window call that carry the SAME name but hold None at different positions (the two 'v' columns of a join
@@ -758,6 +761,11 @@ def run(chk):
 			for opname in ("eq", "ne"):
 				for form in ("vs", "sv"):
 					chk.case("compare_none_scalar", {"a": a, "opname": opname, "form": form, "kind": kind, "mask": ms}, "compare-none-scalar")
+			if any(x is None for x in a):
+				for opname in ("eq", "ne", "lt", "ge"):
+					for form in ("vs", "sv"):
+						for k in ([5, 2.5, b"x", True] if kind in ("str", "date", "datetime") else ["a", b"x", ""]):
+							chk.case("compare_none_scalar", {"a": a, "opname": opname, "form": form, "kind": kind, "mask": ms, "scalar": k}, "compare-none-foreign-scalar")
 			if kind in ("date", "datetime"):
 				for opname in CMP_OPS:
 					others = [rng.choice(ARITH_VALUES[kind]), [rng.choice(ARITH_VALUES[kind]) for _ in range(n)]]
@@ -804,6 +812,9 @@ def run(chk):
 			chk.case("reduce", {"values": vals, "red": red, "kind": kind, "mask": mask_sig([x is None for x in vals])}, "reduce-falsy")
 		chk.case("na", {"values": vals, "fill": rng.choice(dom), "fillclass": "same" if any(x is not None for x in vals) else "into-all-none",
 			"kind": kind, "mask": mask_sig([x is None for x in vals]), "name": None}, "na-falsy")
+	# nothing to mark, drop or fill: an empty vector - typed or never typed - answers all three alike
+	for fill in (0, "x", 2.5, None):
+		chk.case("na", {"values": [], "fill": fill, "fillclass": "same" if fill is not None else "none", "kind": "empty-untyped", "mask": "", "name": None, "build": "direct"}, "na-empty")
 	# fill values that are containers are single values; objects that compare equal to everything are not None
 	for _ in range(40 if chk.quick() else 300):
 		n = rng.choice([2, 3, 4])
